@@ -27,3 +27,55 @@ chk("C20", "proof",
     "Compositionality by structural induction; premises decided: every use of a child in every eval arm is the argument of the recursive eval call (lists: only measured/iterated, elements passed to eval), no arm pattern looks inside a child, eval builds no tree, round brackets are the identity wrapper, previous_token is never read, token dispatch is unguarded. Determinism is C16.",
     "trusted: the induction argument in DESIGN.md; determinism from C16",
     "provenance rule over every child use in the THIR of eval + read census", "DESIGN.md 5/C20")
+chk("C01", "proof",
+    "Sound over-approximation: every MIR panic edge (Assert terminators: overflow, division/remainder by zero, bounds; calls classified may-panic: unwrap/expect/index/panicking Decimal operators and maths/integer pow-abs/...) in every function reachable from the five entry points is enumerated in both overflow-check configurations; an edge is discharged only by a constant condition or by a recognised THIR schema whose premises are re-established on every run (static arity, non-empty aggregate, seeded fold, total-order comparator, guarded division, bounded accumulator/counter, literal call sites). Sort comparators must be total. Stack: frame sizes from -Zemit-stack-sizes x recursion-depth bound from C02 fit the 8 MiB main stack (dev and release); thorough tier repeats the census in all 31 feature subsets x 2.",
+    "trusted: callee classification table (std, rust_decimal 1.43, num-complex 0.4.6), safe-Rust UB checks, allocation failure out of scope; known finding: dev-profile bound exceeds a 2 MiB thread stack",
+    "panic-edge census over MIR + call-graph reachability + schema-based discharge on typed THIR; static stack bound from emitted frame sizes", "DESIGN.md 5/C01")
+chk("C02", "proof",
+    "Every loop construct of every reachable function is classified L1 input-consuming / L2 token-consuming (must-consume fixpoint over the parser) / L3 constant-bounded with an extracted upper-bound provenance (literal, min/clamp, dominating guard, guarded match, literal call sites) / L4 Euclid form, and cross-checked against the natural loops of the MIR; parser recursion: the graph of calls made before any token is consumed is acyclic; eval recursion: arguments are strict sub-terms; only those SCCs exist; the budget inequality c1+2+K_max <= 256 is computed from the extracted constants.",
+    "trusted: finiteness of std iterators, Lame's bound, derived Clone/Drop recursion (not a counted step), loops inside dependencies",
+    "loop classification with bound provenance over typed THIR, MIR natural-loop cross-check, call-graph SCC and progress-edge analysis", "DESIGN.md 5/C02")
+chk("C05", "proof",
+    "Structural induction over the tree; the premise is decided per node kind: chain surface -> token -> node -> eval arm equals Ok(op(children)) with the IEEE/libm operation of that meaning (operand order included), pi/e by bit pattern, and no arithmetic arm contains an Err constructor or a finiteness test.",
+    "trusted: rustc lowering of f64 operators to IEEE operations, std f64 methods, correct rounding of str::parse::<f64> (C19)",
+    "THIR chain composition + reference term table", "DESIGN.md 5/C05")
+chk("C06", "proof",
+    "(a) typed MIR operation census of eval_i64::ast in both overflow configurations: no raw + - * / % << >> neg, no narrowing cast of an expression value, no wrapping/saturating/panicking integer method (wrapping_rem only under a non-zero-divisor guard); (b) chain table: every operator arm is the checked operation of its meaning with None -> Err, exponent/shift counts through u32::try_from, n! the checked product; (c) literals through str::parse::<i64> with failure -> Err. Exactness then follows by structural induction and is profile independent.",
+    "trusted: semantics of i64::checked_*, wrapping_rem, u32::try_from",
+    "typed-operation census over MIR (two configurations) + THIR chain composition against a checked-operation table", "DESIGN.md 5/C06")
+chk("C07", "other",
+    "Necessary structural conditions in this repository: + - * / % and unary minus are routed to rust_decimal's checked exact operations with operands in order and None -> Err; no rounding/rescaling call and no binary floating point (type census of every local, cast and callee in tokenizer, parser and the arithmetic arms); literals reach Decimal::from_str as the exact scanned text. Exactness of rust_decimal's 96-bit arithmetic is trusted, not decided.",
+    "declined: exactness / 1e-27 division tolerance of rust_decimal itself",
+    "THIR chain composition + float-type census over MIR locals and callees", "DESIGN.md 5/C07")
+chk("C08", "other",
+    "Necessary structural conditions: `i` -> Complex(0,1), `<num>i` -> Complex(0,x) consuming the i, `pi` decided before `i`; every operator and function of the complex vocabulary is routed to the num_complex method of its meaning with operands in written order; constants are the real doubles. The numerical tolerances (1e-12/1e-9, branch cuts) are trusted to num_complex/libm.",
+    "declined: all numerical tolerances of the statement",
+    "abstract interpretation of the extracted lexer model + THIR chain composition against a routing table", "DESIGN.md 5/C08")
+chk("C09", "proof",
+    "Each operator arm of eval_number is partially evaluated for every (Integer|Float) operand combination and the residual decision tree is compared with the reference (checked integer operation -> Integer, None/inexact/zero divisor -> Float of the double values; any Float operand -> the IEEE operation on the double values; floor/ceil/round cast the rounded value). Cast-guard rule: every f64->i64 cast that becomes an Integer is dominated by -2^63 <= x < 2^63 on the same x, with guard constants folded exactly.",
+    "trusted: i64::checked_*, `as` conversions, IEEE operators",
+    "partial evaluation of typed THIR arms (case analysis) + guard dominance rule with constant folding", "DESIGN.md 5/C09")
+chk("C10", "proof",
+    "For every (evaluator, documented name/alias/constant/postfix operator): the chain name -> token -> node -> operation, composed from the extracted lexer/parser/eval tables, equals the reference meaning (library-backed rows and exact functions; argument order for root/log/atan2/pow/mod); source constants pi/180 and 180/pi are checked numerically; the three gamma copies and the Lambert-W copies must agree (sibling rule).",
+    "declined: accuracy of Lanczos gamma, convergence of Lambert W, value of ilog, 'within 1' for eval_i64 real-valued functions (only routing / sibling agreement)",
+    "THIR chain composition over the whole vocabulary + sibling cross-check", "DESIGN.md 5/C10")
+chk("C11", "proof",
+    "Every aggregate arm is summarised as a fold (seed, step, finish) and compared with the admissible schemas: min/max with the identity seed or first-element seed, avg = checked sum / len, med = collect, sort with an ascending total comparator, middle / mean of the two middle elements; gcd helper has the Euclid transformer (a,b) := (b, a mod b) and finish |a|; arguments are evaluated with `?`; parser side: empty list -> Err, avg() -> 0. Order independence follows from commutativity/associativity + sort.",
+    "trusted: min/max algebra of the value types, sort correctness; NaN/inf arguments are outside the property",
+    "fold-schema matching over typed THIR terms", "DESIGN.md 5/C11")
+chk("C15", "proof",
+    "Sibling cross-check of extracted tables: (1) type-erased parser arms for every shared symbol/function and the parser skeleton are identical across evaluators; (2) number<->i64: the Integer branch uses the same checked operation with the same operand order, Integer-wrapped; (3) number<->f64: every branch with a Float operand has, after erasing the Number wrappers, the same term as eval_f64's arm; (4) complex/decimal<->f64: same-named routing.",
+    "declined: 1e-9 numerical agreement of eval_complex/eval_decimal with eval_f64",
+    "sibling comparison of extracted tables + partial evaluation", "DESIGN.md 5/C15")
+chk("C17", "proof",
+    "Exhaustive over configurations: all 31 non-empty feature subsets and the empty one are type-checked under the extractor; the export set equals the selection; the typed THIR of every compiled evaluator module and of the shared utils is hash-equal to the all-features build; the precedence enum restricted to surviving variants keeps the order; cfg occurrences are confined to the crate root and the enum; Cargo feature table is as documented. Thorough: also without overflow checks and with the stable toolchain.",
+    "trusted: compiler determinism (equal typed program => equal behaviour)",
+    "exhaustive configuration enumeration with per-module fact-base equality + lexical cfg census", "DESIGN.md 5/C17")
+chk("C18", "proof",
+    "From<i64> is Integer(v). From<f64> is summarised to a decision tree: an integrality test from an enumerated exact set (false for NaN and +-inf), range guard with constants folded exactly to [-2^63, 2^63) (strict upper bound), Integer(t(v) as i64) inside, Float(v) carrying the parameter itself otherwise. Case analysis over the tree covers all 2^64 doubles.",
+    "trusted: IEEE floor/trunc/compare semantics, exactness of `as i64` on integral doubles in range",
+    "decision-tree summary of typed THIR + guard dominance with constant folding + identity-flow rule", "DESIGN.md 5/C18")
+chk("C19", "other",
+    "Necessary structural conditions on the literal scanners of all five tokenizers: every digit starts the same scanner, the scanner continues over digits and '.' only (no sign, no exponent letter), `.DIGITS` is converted as `0.DIGITS`, a lone '.' is rejected, the exact scanned text goes to the standard converter of the evaluator's type, nothing is applied to the result, a failed conversion yields None/Err (eval_number: Float fallback; second point ends the literal). Correct rounding and the print/re-read inverse are library contracts (argued on paper in spec/roundtrip.md).",
+    "declined: correct rounding of std/rust_decimal converters; print -> re-read round trip",
+    "abstract interpretation of the extracted lexer model + scanner pattern analysis on typed THIR", "DESIGN.md 5/C19")
